@@ -214,16 +214,28 @@ theorem arangeLenExact_eq_spec (start stop sn : Int) (sd : Nat) (hsn : sn ≠ 0)
     have h4 : ∀ a : Int, (-1 * a).toNat = (-a).toNat := by intro a; congr 1; omega
     simp only [hpos, hneg, if_true, if_false, h2, gt_iff_lt, h3, h4]
 
-/-- inside the float-exact range the length is NumPy's, for either sign of the step -/
+/-- integer step: the length is NumPy's for EVERY start / stop / step (exact integer ceiling division; the binary32
+    count of the original code was repaired in /repo, "arange.float32-length") -/
+theorem arange_len_int (start stop sn : Int) (hsn : sn ≠ 0) :
+    arangeLen start stop sn 1 = some (arangeLenSpec start stop sn 1) := by
+  simp only [arangeLen, if_true, hsn, if_false, Option.some.injEq]
+  exact arangeLenExact_eq_spec start stop sn 1 hsn
+
+/-- real step on the quarter grid: inside the float-exact range the length is NumPy's, for either sign of the step -/
 theorem arange_len (start stop sn : Int) (sd : Nat) (hsn : sn ≠ 0) (hsd : 0 < sd)
     (hA : (stop - start).natAbs * sd < 2 ^ 24 ∧ sn.natAbs < 2 ^ 24) :
     arangeLen start stop sn sd = some (arangeLenSpec start stop sn sd) := by
-  have hsd' : ¬ sd = 0 := by omega
-  simp only [arangeLen, hsn, hsd', or_self, if_false, hA, and_self, if_true, Option.some.injEq]
-  exact arangeLenExact_eq_spec start stop sn sd hsn
+  by_cases h1 : sd = 1
+  · subst h1; exact arange_len_int start stop sn hsn
+  · have hsd' : ¬ sd = 0 := by omega
+    simp only [arangeLen, h1, hsn, hsd', or_self, if_false, hA, and_self, if_true, Option.some.injEq]
+    exact arangeLenExact_eq_spec start stop sn sd hsn
 
-/-- step 0: the C++ divides by zero and converts the result to `size_t` (UB) — no answer in the model -/
-theorem arange_step_zero (start stop : Int) (sd : Nat) : arangeLen start stop 0 sd = none := by simp [arangeLen]
+/-- an integer step 0 gives an empty range; a real step 0 divides by zero and converts the result to `size_t` (UB) — no
+    answer in the model -/
+theorem arange_step_zero (start stop : Int) (sd : Nat) :
+    arangeLen start stop 0 1 = some 0 ∧ (sd ≠ 1 → arangeLen start stop 0 sd = none) := by
+  refine ⟨by simp [arangeLen], fun h => by simp [arangeLen, h]⟩
 
 /-- shape `[len]`, element `k` is `start + k·step` (as the fraction `(start·sd + k·sn) / sd`) -/
 theorem arange_shape_elem (start stop sn : Int) (sd : Nat) (hsn : sn ≠ 0) (hsd : 0 < sd)
@@ -233,10 +245,8 @@ theorem arange_shape_elem (start stop sn : Int) (sd : Nat) (hsn : sn ≠ 0) (hsd
   simp only [arangeGen, arange_len start stop sn sd hsn hsd hA, Option.map_some]
   exact ⟨_, rfl, rfl, fun _ => rfl⟩
 
-/-- GENUINE DEFECT (known finding arange.float32-length): outside the float-exact range the count comes out of a binary32
-    division and can be wrong — `arange(0, 16777217)` has 16777216 elements instead of 16777217 -/
-theorem arange_len_f32_counterexample :
-    arangeLen 0 16777217 1 1 = some 16777216 ∧ arangeLenSpec 0 16777217 1 1 = 16777217 := by decide
+/-- regression guard for the repaired binary32 count -/
+example : arangeLen 0 16777217 1 1 = some 16777217 ∧ arangeLen 0 33554433 16777216 1 = some 3 := by decide
 
 example : arangeLenSpec 3 10 3 1 = 3 ∧ arangeLenSpec 10 3 (-3) 1 = 3 ∧ arangeLenSpec 3 10 (-3) 1 = 0 ∧
     arangeLenSpec 0 5 3 4 = 7 := by decide
